@@ -639,3 +639,120 @@ Proof.
     destruct (to_end (agg_loop fine false rows key aggs w rows _ _ _) g'). simpl in *. subst. reflexivity.
 Qed.
 End Repair.
+
+(* ------------------------------------------------------------------ *)
+(* Keyed cells: the scheduler theorem for [kcomp] and the two thread shapes. *)
+
+Inductive kprivate {A} : kcomp A -> Prop :=
+| kpr_ret : forall a, kprivate (KRet a)
+| kpr_yield : forall k, kprivate k -> kprivate (KYield k).
+
+Lemma kprivate_bind : forall A B (c : kcomp A) (f : A -> kcomp B),
+  kprivate c -> (forall a, kprivate (f a)) -> kprivate (kbind c f).
+Proof. intros A B c f H Hf. induction H; simpl; auto. constructor; auto. Qed.
+
+Lemma kto_yield_private : forall A (c : kcomp A) s, kprivate c ->
+  snd (kto_yield c s) = s /\ kprivate (fst (kto_yield c s)) /\
+  kto_end (fst (kto_yield c s)) s = kto_end c s.
+Proof.
+  intros A c s H. induction H; simpl.
+  - repeat split. constructor.
+  - repeat split. auto.
+Qed.
+
+Lemma kto_end_private : forall A (c : kcomp A) s, kprivate c -> snd (kto_end c s) = s.
+Proof. intros A c s H. induction H; simpl; auto. Qed.
+
+Lemma kto_end_private_any : forall A (c : kcomp A) s s', kprivate c -> fst (kto_end c s) = fst (kto_end c s').
+Proof. intros A c s s' H. induction H; simpl; auto. Qed.
+
+Lemma kdrain_private : forall A (ts : list (kcomp A)) s, Forall kprivate ts ->
+  kdrain ts s = (map (fun c => fst (kto_end c s)) ts, s).
+Proof.
+  intros A ts s H. induction H; simpl; auto.
+  pose proof (kto_end_private _ x s H) as E.
+  destruct (kto_end x s) as [a s1] eqn:Ex. simpl in E. subst s1.
+  rewrite IHForall. reflexivity.
+Qed.
+
+Lemma kstep_private : forall A (st : kstate A) i, Forall kprivate (fst st) ->
+  Forall kprivate (fst (kstep st i)) /\ snd (kstep st i) = snd st /\
+  map (fun c => fst (kto_end c (snd st))) (fst (kstep st i)) = map (fun c => fst (kto_end c (snd st))) (fst st).
+Proof.
+  intros A [ts s] i H. unfold kstep. simpl in *.
+  destruct (nth_error ts i) as [c|] eqn:En; simpl; auto.
+  assert (Hc : kprivate c).
+  { rewrite Forall_forall in H. apply H. eapply nth_error_In; eauto. }
+  destruct (kto_yield_private _ c s Hc) as (Hg & Hp & He).
+  destruct (kto_yield c s) as [c' s'] eqn:Ey. simpl in *. subst s'.
+  repeat split.
+  - apply Forall_set_nth; auto.
+  - eapply map_set_nth; eauto. rewrite He. reflexivity.
+Qed.
+
+Lemma kfold_step_private : forall A sched (st : kstate A), Forall kprivate (fst st) ->
+  let st' := fold_left kstep sched st in
+  Forall kprivate (fst st') /\ snd st' = snd st /\
+  map (fun c => fst (kto_end c (snd st))) (fst st') = map (fun c => fst (kto_end c (snd st))) (fst st).
+Proof.
+  intros A sched. induction sched as [|i s IH]; intros st H; simpl; auto.
+  destruct (kstep_private _ st i H) as (Hp & Hg & Hm).
+  destruct (IH (kstep st i) Hp) as (Hp' & Hg' & Hm').
+  repeat split; auto.
+  - congruence.
+  - rewrite Hg in Hm'. rewrite Hm'. exact Hm.
+Qed.
+
+Theorem kisolation_sched : forall A (ts : list (kcomp A)) s sched,
+  Forall kprivate ts -> krun_state sched (ts, s) = krun_state [] (ts, s).
+Proof.
+  intros A ts s sched H. unfold krun_state.
+  destruct (kfold_step_private _ sched (ts, s) H) as (Hp & Hg & Hm).
+  simpl in *. rewrite Hg.
+  rewrite (kdrain_private _ _ s Hp), (kdrain_private _ ts s H). rewrite Hm. reflexivity.
+Qed.
+
+Lemma ns_bind_private : forall own refs, kprivate (ns_bind false own refs).
+Proof.
+  intros own refs. induction refs as [|r t IH]; simpl.
+  - constructor.
+  - apply kprivate_bind; auto. intros; constructor.
+Qed.
+
+Lemma ns_thread_private : forall q, kprivate (ns_thread false q).
+Proof.
+  intros q. unfold ns_thread. simpl.
+  apply kprivate_bind. apply ns_bind_private.
+  intros a. constructor. apply kprivate_bind. apply ns_bind_private. intros; constructor.
+Qed.
+
+Lemma agg_read_private : forall own n j, kprivate (agg_read false own j n).
+Proof.
+  intros own n. induction n as [|m IH]; intros j; simpl.
+  - constructor.
+  - constructor. apply kprivate_bind; auto. intros; constructor.
+Qed.
+
+Lemma agg_emit_private : forall groups, kprivate (agg_emit false groups).
+Proof.
+  intros groups. induction groups as [|g t IH]; simpl.
+  - constructor.
+  - apply kprivate_bind. apply agg_read_private.
+    intros row. apply kprivate_bind; auto. intros; constructor.
+Qed.
+
+Lemma Forall_map_private : forall X A (f : X -> kcomp A) l, (forall x, kprivate (f x)) -> Forall kprivate (map f l).
+Proof. intros X A f l H. induction l; simpl; constructor; auto. Qed.
+
+(* With an empty inventory both containers are private to one compilation / execution and every
+   schedule gives the serial results. *)
+Theorem keyed_cells_isolation : forall (cells : list cell_id) (sched : list nat)
+    (qs : list ns_stmt) (gs : list (list (list Z))),
+  cells = [] ->
+  krun sched (map (ns_thread (keyed_cells_shared cells)) qs) = kserial (map (ns_thread (keyed_cells_shared cells)) qs) /\
+  krun sched (map (agg_emit (keyed_cells_shared cells)) gs) = kserial (map (agg_emit (keyed_cells_shared cells)) gs).
+Proof.
+  intros cells sched qs gs ->. unfold krun, kserial, krun. simpl. split.
+  - rewrite (kisolation_sched _ _ [] sched); auto. apply Forall_map_private. apply ns_thread_private.
+  - rewrite (kisolation_sched _ _ [] sched); auto. apply Forall_map_private. apply agg_emit_private.
+Qed.
